@@ -15,7 +15,7 @@
 // Case text: `cfg <n>`, `param creq ...`, then one operation per line:
 //   ev <pdu> [args] [lost] [md] [unack] [err]    the peripheral receives the central's packet in the scheduled event
 //   miss <n>                                     the peripheral receives nothing in n consecutive scheduled events
-//   notify <grant> <percent>                     application calls notify(); answer of disarm_connection_event()
+//   notify <grant> <percent> <characteristic>    application calls notify(); answer of disarm_connection_event()
 //   cfgset <k>                                   change_peripheral_latency<>() (configuration set only)
 #include "verif.hpp"
 
@@ -118,12 +118,13 @@ namespace c21_lltiming {
     };
 
     // ============================================================================================ server, callbacks
-    std::uint32_t value1 = 0;
+    std::uint32_t value1 = 0, value2 = 0;
 
+    // handles: 1 service, 2/3 first characteristic + value, 4 its CCCD, 5/6 second characteristic + value, 7 its CCCD
     using srv = bluetoe::server< bluetoe::no_gap_service_for_gatt_servers,
         bluetoe::service< bluetoe::service_uuid16< 0x1815 >,
-            bluetoe::characteristic< bluetoe::characteristic_uuid16< 0x2A01 >, bluetoe::bind_characteristic_value< std::uint32_t, &value1 >,
-                bluetoe::notify > > >;
+            bluetoe::characteristic< bluetoe::characteristic_uuid16< 0x2A01 >, bluetoe::bind_characteristic_value< std::uint32_t, &value1 >, bluetoe::notify >,
+            bluetoe::characteristic< bluetoe::characteristic_uuid16< 0x2A02 >, bluetoe::bind_characteristic_value< std::uint32_t, &value2 >, bluetoe::notify > > >;
 
     struct cb_entry
     {
@@ -173,7 +174,7 @@ namespace c21_lltiming {
         virtual ll::read_buffer  alloc_rx()                               = 0;
         virtual ll::write_buffer received( ll::read_buffer )              = 0;
         virtual ll::write_buffer next_transmit()                          = 0;
-        virtual void             notify()                                 = 0;
+        virtual void             notify( int which )                      = 0;
         virtual void             cfgset( int )                            = 0;
     };
 
@@ -209,7 +210,13 @@ namespace c21_lltiming {
         ll::read_buffer  alloc_rx() override { return d.allocate_receive_buffer(); }
         ll::write_buffer received( ll::read_buffer b ) override { return d.received( b ); }
         ll::write_buffer next_transmit() override { return d.next_transmit(); }
-        void             notify() override { d.notify( value1 ); }
+        void             notify( int which ) override
+        {
+            if ( which )
+                d.notify( value2 );
+            else
+                d.notify( value1 );
+        }
         void             cfgset( int k ) override { switch_cfg( d, k, std::integral_constant< bool, IsSet >() ); }
     };
 
@@ -268,6 +275,7 @@ namespace c21_lltiming {
         int n = 1;         // MISS: number of events; CFGSET: configuration
         bool grant = true; // NOTIFY
         int percent = 0;   // NOTIFY: how far the time went towards the start of the scheduled window
+        int which = 0;     // NOTIFY: characteristic
     };
 
     struct Case
@@ -500,7 +508,7 @@ namespace c21_lltiming {
                 o.pdu  = what;
                 if ( what == P_WRCMD ) o.len = *verif::range< int >( 0, 20 );
                 if ( what == P_WRREQ ) o.len = *rc::gen::element( 4, 4, 4, 1, 20 );
-                if ( what == P_CCCD ) o.len = *rc::gen::element( 1, 1, 1, 0 );
+                if ( what == P_CCCD ) o.len = *rc::gen::element( 1, 1, 17, 17, 0, 16 );
                 o.lost = *rc::gen::weightedElement< bool >( { { 12, false }, { 1, true } } );
                 if ( prop == 23 )
                 {
@@ -520,6 +528,7 @@ namespace c21_lltiming {
                 o.kind    = NOTIFY;
                 o.grant   = *rc::gen::weightedElement< bool >( { { 5, true }, { 1, false } } );
                 o.percent = *rc::gen::weightedOneOf< int >( { { 2, rc::gen::just( 0 ) }, { 4, verif::range< int >( 0, 100 ) }, { 1, rc::gen::just( 100 ) } } );
+                o.which   = *rc::gen::element( 0, 0, 1 );
             }
             else
             {
@@ -545,6 +554,11 @@ namespace c21_lltiming {
                 Op s;
                 s.kind = EV, s.pdu = P_CCCD, s.len = 1;
                 c.ops.insert( c.ops.begin(), s );
+                if ( *rc::gen::arbitrary< bool >() )
+                {
+                    s.len = 17;  // second characteristic
+                    c.ops.insert( c.ops.begin() + 1, s );
+                }
             }
             return c;
         } );
@@ -576,7 +590,7 @@ namespace c21_lltiming {
                 os << "\n";
             }
             else if ( o.kind == MISS ) os << "miss " << o.n << "\n";
-            else if ( o.kind == NOTIFY ) os << "notify " << ( o.grant ? 1 : 0 ) << " " << o.percent << "\n";
+            else if ( o.kind == NOTIFY ) os << "notify " << ( o.grant ? 1 : 0 ) << " " << o.percent << " " << o.which << "\n";
             else os << "cfgset " << o.n << "\n";
         }
         return os.str();
@@ -655,6 +669,7 @@ namespace c21_lltiming {
                 o.kind    = NOTIFY;
                 o.grant   = verif::tok_int( l, 1, 1 ) != 0;
                 o.percent = static_cast< int >( verif::tok_int( l, 2, 0 ) );
+                o.which   = verif::tok_int( l, 3, 0 ) != 0;
                 c.ops.push_back( o );
             }
             else if ( l[ 0 ] == "cfgset" )
@@ -1081,7 +1096,7 @@ namespace c21_lltiming {
                     break;
                 if ( o.pdu == P_WRREQ ) txq.push_back( { att( { 0x12, 0x03, 0x00 }, std::min( 20, std::max( 0, o.len ) ) ), 2, -1 } );
                 if ( o.pdu == P_READ ) txq.push_back( { att( { 0x0a, 0x03, 0x00 }, 0 ), 2, -1 } );
-                if ( o.pdu == P_CCCD ) txq.push_back( { att( { 0x12, 0x04, 0x00, static_cast< u8 >( o.len & 3 ), 0x00 }, 0 ), 2, -1 } );
+                if ( o.pdu == P_CCCD ) txq.push_back( { att( { 0x12, static_cast< u8 >( ( o.len & 16 ) ? 0x07 : 0x04 ), 0x00, static_cast< u8 >( o.len & 3 ), 0x00 }, 0 ), 2, -1 } );
                 break;
             }
             case P_UPD:
@@ -1401,7 +1416,7 @@ namespace c21_lltiming {
             r.disarm_time  = static_cast< std::uint32_t >( elapsed + 100 );
             r.cancel_req   = false;
             const unsigned calls = r.disarm_calls;
-            dev->notify();
+            dev->notify( o.which );
             if ( !r.cancel_req )
                 return;
             r.cancel_req = false;
@@ -1499,7 +1514,7 @@ namespace c21_lltiming {
     void run( const Case& c, verif::Report& rep )
     {
         cblog.clear();
-        value1 = 0;
+        value1 = value2 = 0;
         Run r( c, rep );
         r.run();
     }
